@@ -211,6 +211,42 @@ func runC04(c *fw.Ctx) {
 	// placed between the root bracket and that last byte must make it rejected
 	c.Cases("soup-injection", c.N(20000, 1000000), false, func(i int, r *rng.R) {
 		text := genSoup(r)
+		if i%2 == 1 {
+			// hosts built from valid documents decorated, between tokens, with things a lenient parser might tolerate
+			// (comments, exotic blanks, stray separators); whether the library accepts the host is found out by running it
+			root := spec.List
+			if r.Bool() {
+				root = spec.Obj
+			}
+			doc := []byte(renderRoot(r, genDocTree(r, root, r.Range(1, 3), r.Range(1, 4)), docStyle{WS: r.Intn(2)}, false))
+			var gaps []int
+			inStr, esc := false, false
+			for j, ch := range doc {
+				switch {
+				case esc:
+					esc = false
+				case inStr && ch == '\\':
+					esc = true
+				case ch == '"':
+					inStr = !inStr
+				case !inStr && (ch == ',' || ch == '[' || ch == '{' || ch == ':') && j < len(doc)-1:
+					gaps = append(gaps, j+1)
+				}
+			}
+			decor := []string{"// note\n", "//\n", " // x y z \n ", "/* c */", "# c\n", "\v", "\f", "\u00a0", "\u2028", " \n ", "//a//b\n", "-- c\n", "; c\n"}
+			for k := r.Range(1, 3); k > 0 && len(gaps) > 0; k-- {
+				g := gaps[r.Intn(len(gaps))]
+				d := decor[r.Intn(len(decor))]
+				doc = append(doc[:g], append([]byte(d), doc[g:]...)...)
+				for x := range gaps {
+					if gaps[x] >= g {
+						gaps[x] += len(d)
+					}
+				}
+			}
+			text = string(doc)
+			c.Count("decorated_hosts_tried")
+		}
 		if len(text) < 3 || len(text) > 300 {
 			return
 		}
